@@ -1,7 +1,6 @@
 package ysgo
 
 import (
-	"github.com/remieven/ysgo/internal/container"
 	"github.com/remieven/ysgo/internal/tree"
 	"github.com/remieven/ysgo/markup"
 	"github.com/remieven/ysgo/variable"
@@ -22,10 +21,7 @@ func VHRunnerMarkupPure() {
 	mk := func(t string) *tree.Statement {
 		return &tree.Statement{LineStatement: &tree.LineStatement{Text: &tree.LineFormattedText{Elements: []*tree.LineFormattedTextElement{{Text: t}}}}}
 	}
-	st := container.Stack[*statementQueue]{}
-	st.Push(&statementQueue{statements: []*tree.Statement{mk(l1), mk(l2)}})
-	dr := &DialogueRunner{dialogue: &tree.Dialogue{}, statementsToRun: st, variableStorer: variable.NewInMemoryStorer(),
-		functionStorer: &functionStorer{functionsByID: map[string]YarnSpinnerFunction{}}, commandStorer: newCommandStorer(), visitedNodes: map[string]int{}}
+	dr := vRunnerAt(variable.NewInMemoryStorer(), &tree.Dialogue{}, "n0", mk(l1), mk(l2))
 	dr.Next(0) // first line: may succeed or fail to parse, either way it is history
 	el, err := dr.Next(0)
 	fresh := markup.LineParser{}
